@@ -6,6 +6,7 @@ import (
 	"encoding/json"
 	"fmt"
 	"math"
+	"time"
 
 	"github.com/mandykoh/prism/ciexyy"
 	"github.com/mandykoh/prism/ciexyz"
@@ -372,7 +373,7 @@ func runC20(r *core.Run) {
 				r.Violate("triangle", kind+"/luminance-sum", sp.Name+": "+msg, c20Case{Kind: kind, XY: sp.XY, YY: &y})
 			}
 		}
-		for _, ysc := range []float32{1e-9, 1e-6, 1e-4, 1e4, 1e9} {
+		for _, ysc := range []float32{1e-9, 1e-6, 1e-4, 0.18, 0.5, 2, 10, 50, 80, 99.5, 100, 100.5, 255, 1000, 65535, 1e4, 1e9} {
 			for _, yy4 := range [][4]float32{{ysc, ysc, ysc, ysc}, {1, 1, 1, ysc}, {ysc, ysc * 2, ysc / 2, 1}} {
 				kind, msg, _ := c20TriangleYY(sp.XY, yy4)
 				r.AddEvals(1)
@@ -581,6 +582,11 @@ func runC20(r *core.Run) {
 		r.AddEvals(12)
 		r.NT(fmt.Sprintf("structured/%v", m))
 	}
+	if r.Variant == "" {
+		// the whole workload once more in the GOARCH=386 build of this monitor (see ./check)
+		r.RunVariantChild("arch386@16", 30*time.Minute, false)
+		r.Obs("arch386_child", "run")
+	}
 	tm := ciexyz.TransformToXYZForXYYPrimaries(c20xyy(c20Published[5].XY[0]), c20xyy(c20Published[5].XY[1]), c20xyy(c20Published[5].XY[2]), c20xyy(c20Published[5].XY[3]))
 	r.Sample(map[string]any{"space": "Rec.2020", "rgb_to_xyz_rows": libMat(tm)})
 	rg := core.NewRNG(r.Seed, "C20", "sample")
@@ -625,5 +631,5 @@ func replayC20(stage string, raw json.RawMessage) (bool, string, error) {
 }
 
 func init() {
-	core.Register(&core.Property{ID: "C20", Level: "exploration", Run: runC20, Replay: replayC20})
+	core.Register(&core.Property{ID: "C20", Level: "exploration", Run: runC20, Replay: replayC20, Child: variantChild("C20", "exploration", runC20)})
 }
